@@ -105,7 +105,7 @@ class Builder:
         self.quiet = quiet
         # san: False (std) | True (ASan+UBSan) | "instr" (runtime TUs compiled with -finstrument-functions: the simulator can
         # pre-empt a simulated thread at function-call granularity, see harness/simthreads.cpp)
-        self.variant = "instr" if san == "instr" else ("san" if san else "std")
+        self.variant = san if san in ("instr", "instrsan") else ("san" if san else "std")
         self.gen = os.path.join(CACHE, "gen")
         self.objdir = os.path.join(CACHE, "obj")
         self.depdir = os.path.join(CACHE, "dep", self.variant)
@@ -117,7 +117,7 @@ class Builder:
                            "-DSPDLOG_FMT_EXTERNAL", "-DHGRAPH_TIME_ZONE_BACKEND_STD=1"]
         if os.environ.get("HGRAPH_VERIF") == "1":
             self.base_flags.append("-DHGRAPH_VERIF=1")
-        if san is True:
+        if san is True or san == "instrsan":
             self.base_flags += ["-fsanitize=address,undefined", "-fno-omit-frame-pointer", "-fno-sanitize-recover=undefined"]
         self.includes = ["-I" + self.gen, "-I" + os.path.join(self.repo, "include"),
                          "-I" + os.path.join(self.repo, "include/third_party"),
@@ -198,9 +198,11 @@ class Builder:
             extra = []
             if t in CHRONO_SHIM_TUS:
                 extra = ["-include", os.path.join(VERIF, "build/compat/chrono_compat.h")]
-            if self.variant == "instr" and t.startswith("hgraph/runtime/"):
-                extra = extra + ["-finstrument-functions",
-                                 "-finstrument-functions-exclude-file-list=/usr/include,/usr/lib,third_party,site-packages,/gen/"]
+            if self.variant in ("instr", "instrsan") and t.startswith("hgraph/runtime/"):
+                # (-fno-fold-simple-inlines: GCC 12 otherwise folds std::move / std::forward away even at -O0, and with them the
+                # only call between the load and the store of a std::exchange)
+                extra = extra + ["-finstrument-functions", "-fno-fold-simple-inlines",
+                                 "-finstrument-functions-exclude-file-list=third_party,site-packages,/gen/"]      # (standard-library templates stay instrumented: a switch inside std::exchange and the like is reachable)
             jobs.append(("repo/" + t, os.path.join(self.repo, "src", t), extra))
         hdir = os.path.join(VERIF, "harness")
         for f in sorted(os.listdir(hdir)):
@@ -224,6 +226,10 @@ class Builder:
             sys.stderr.write("BUILD FAILED: %s\n" % ", ".join(sorted(errors)))
             return None
         ordered = [objs[k] for k in sorted(objs)]
+        if self.variant in ("instr", "instrsan"):
+            # the linker keeps the first copy of every template instantiation shared between objects (COMDAT): the copies of
+            # the instrumented runtime objects must win, or a std::forward called from engine code has no hook in it
+            ordered = [objs[k] for k in sorted(objs, key=lambda k: (0 if k.startswith("repo/hgraph/runtime/") else 1, k))]
         linkkey = sha("link-v1", self.variant, *ordered)[:24]
         bindir = os.path.join(CACHE, "bin", linkkey)
         binary = os.path.join(bindir, "hgsim")
@@ -235,7 +241,7 @@ class Builder:
             cmd = [CXX, "-pthread", "-rdynamic", "@" + rsp, "-o", binary + ".tmp",
                    "-L" + SP + "/pyarrow", "-l:libarrow.so.2500", "-l:libarrow_compute.so.2500",
                    "-l:libarrow_acero.so.2500", "-Wl,-rpath," + SP + "/pyarrow", "-lpthread", "-ldl"]
-            if self.san is True:
+            if self.san is True or self.san == "instrsan":
                 cmd.insert(1, "-fsanitize=address,undefined")
             p = subprocess.run(cmd, capture_output=True, text=True)
             if p.returncode != 0:
@@ -314,7 +320,7 @@ def tree_stamp(repo, variant):
 def build(repo="/repo", san=False, quiet=True):
     os.makedirs(CACHE, exist_ok=True)
     os.makedirs(os.path.join(CACHE, "stamp"), exist_ok=True)
-    stamp = os.path.join(CACHE, "stamp", tree_stamp(os.path.realpath(repo), "instr" if san == "instr" else ("san" if san else "std")))
+    stamp = os.path.join(CACHE, "stamp", tree_stamp(os.path.realpath(repo), san if san in ("instr", "instrsan") else ("san" if san else "std")))
     if os.path.exists(stamp):
         binary = open(stamp).read().strip()
         if os.path.exists(binary):
@@ -348,9 +354,10 @@ if __name__ == "__main__":
     ap.add_argument("--repo", default=os.environ.get("VERIF_REPO", "/repo"))
     ap.add_argument("--san", action="store_true")
     ap.add_argument("--instr", action="store_true")
+    ap.add_argument("--instrsan", action="store_true")
     ap.add_argument("--quiet", action="store_true")
     a = ap.parse_args()
-    out = build(a.repo, san="instr" if a.instr else a.san, quiet=a.quiet)
+    out = build(a.repo, san="instrsan" if a.instrsan else ("instr" if a.instr else a.san), quiet=a.quiet)
     if not out:
         sys.exit(2)
     print(out)
